@@ -17,7 +17,7 @@ CASE_TIMEOUT = 1200
 SYMPREC = 1e-5
 RULE = ("cases = lattice family (random sheared by unimodular matrices, needles/plates to 1:50, cubic/fcc/bcc/hex with atoms on 0,1/2,1/3,1/4 fractions for 2..8-fold ties, "
         "zoo supercells through Primitive) x dense|sparse storage; every (supercell atom, primitive atom) pair is an evaluation; "
-        "oracle bands: images with length <= min+0.5*symprec must be stored, >= min+1.5*symprec must not (in between: don't care); "
+        "tie families also with positions perturbed by 0.03|0.2 symprec (near-ties) and symprec 1e-7|1e-5|1e-3; oracle bands: images with length <= min+0.5*symprec must be stored, >= min+1.5*symprec must not (in between: don't care); "
         "non-trivial = pair with a non-zero separation; distinct = (lattice case, storage, pair index)")
 ASSUMPTIONS = [
     "box |n_i| <= r0*|b*_i| + 0.5 in the Niggli-reduced basis (harness' own spglib call) contains every image no longer than the known image r0",
@@ -33,7 +33,10 @@ def gen_cases(tier, seed):
     fams = ["random", "needle", "plate", "cubic_ties", "fcc_ties", "bcc_ties", "hex_ties", "zoo"]
     for i in range(n):
         fam = fams[i % len(fams)]
-        cases.append({"family": fam, "seed": int(rng.integers(10 ** 9)), "dense": bool(i // len(fams) % 2), "_cost": 3 if fam == "zoo" else 1})
+        # near: tie families with positions perturbed by <= 0.2 symprec (file round-off, relaxation noise): the tied images then agree within
+        # 0.4 symprec (< the 0.5 symprec "must be stored" band) but not to machine precision; symprec itself is varied
+        cases.append({"family": fam, "seed": int(rng.integers(10 ** 9)), "dense": bool(i // len(fams) % 2), "_cost": 3 if fam == "zoo" else 1,
+                      "near": float([0.0, 0.0, 0.03, 0.2][rng.integers(4)]) if fam.endswith("_ties") else 0.0, "symprec": float([1e-5, 1e-5, 1e-3, 1e-7][rng.integers(4)])})
     return cases
 
 
@@ -99,6 +102,11 @@ def make_problem(c):
     if fam == "zoo":
         return None
     # describe the same lattice in a far-from-reduced basis and rotate rigidly
+    if c.get("near", 0.0) > 0 and fam.endswith("_ties"):
+        dcart = rng.standard_normal(xs.shape)
+        dcart *= (c["near"] * c.get("symprec", SYMPREC) * rng.uniform(0.2, 1.0, (len(xs), 1))) / np.linalg.norm(dcart, axis=1)[:, None]
+        xs = xs + dcart @ np.linalg.inv(L)
+        xp = xs[:npr].copy()
     U = _unimodular(rng, int(rng.integers(0, 6)))
     L2 = (U @ L) @ _rot(rng).T
     xs2 = xs @ np.linalg.inv(U)
@@ -181,10 +189,13 @@ def run_case(c):
         via_primitive = pr
     else:
         L, xs, xp = prob
-    sp = ShortestPairs(L, xs, xp, store_dense_svecs=c["dense"], symprec=SYMPREC)
+    symprec = c.get("symprec", SYMPREC) if via_primitive is None else SYMPREC
+    sp = ShortestPairs(L, xs, xp, store_dense_svecs=c["dense"], symprec=symprec)
     svecs, multi = sp.shortest_vectors, sp.multiplicities
-    sp2 = ShortestPairs(L, xs, xp, store_dense_svecs=not c["dense"], symprec=SYMPREC)
-    oracle, skipped = brute_force(L, xs, xp, SYMPREC)
+    sp2 = ShortestPairs(L, xs, xp, store_dense_svecs=not c["dense"], symprec=symprec)
+    oracle, skipped = brute_force(L, xs, xp, symprec)
+    obs["near_tie_cases"] = int(c.get("near", 0.0) > 0)
+    obs["symprec_%g" % symprec] = 1
     obs["skipped_big_box"] = skipped
 
     def stored_of(svecs, multi, dense, i, j):
@@ -207,7 +218,7 @@ def run_case(c):
             if prob_:
                 if len(viol) < 6:
                     viol.append({"kind": "svecs_wrong", "msg": "pair (%d,%d): %s; stored %d, ties %d, min length %.6f" % (i, j, prob_, m, len(must), mlen),
-                                 "dense": dense, "family": c["family"], "n_ties": int(len(must)), "n_stored": m})
+                                 "dense": dense, "family": c["family"], "n_ties": int(len(must)), "n_stored": m, "near": c.get("near", 0.0), "symprec": symprec})
         if mlen > 1e-8:
             keys.append("%s|%s|%d|%d" % (c["seed"], c["dense"], i, j))
     # conversion helpers describe the same sets
